@@ -16,8 +16,35 @@ def _deep(leaf):
     return f
 
 
-# two more queries that agree down to nesting depth 6 and differ only below it (same printed prefix, different meaning)
-QALPHA = [(1, (b, a)), (0, (c, A(a, b))), (-2, (b, a)), (7, (N(c), b)), (3, (b, _deep(c))), (4, (b, _deep(N(c))))]
+# two more queries that agree down to nesting depth 6 and differ only below it (same printed prefix, different meaning);
+# the pair is chosen per base so that the reference answers of the two differ (see deep_pair)
+QALPHA4 = [(1, (b, a)), (0, (c, A(a, b))), (-2, (b, a)), (7, (N(c), b))]
+QALPHA = QALPHA4 + [(3, (b, _deep(c))), (4, (b, _deep(N(c))))]
+
+
+def _deepx(x, leaf):
+    f = leaf
+    for _ in range(6):
+        f = A(x, f)
+    return f
+
+
+def deep_pair(conds, cfg, weakly):
+    """Two queries (B | x,(x,(x,(x,(x,(x,l)))))) and (B | x,(..,!l)) whose reference answers differ for this base/operator."""
+    rb = ref.RefBase([forms.sem(x, scopes.SIG3) for x in conds], forms.allmask(scopes.SIG3))
+    system = drive.CONFIGS[cfg][0]
+    lits = [a, b, c, N(a), N(b), N(c)]
+    for B in lits:
+        for x in lits:
+            for l in (a, b, c):
+                if len({forms.atoms(B)[0], forms.atoms(x)[0], l[1]}) < 3:
+                    continue
+                q1, q2 = (B, _deepx(x, l)), (B, _deepx(x, N(l)))
+                r1 = rb.answer(system, forms.sem(q1, scopes.SIG3), weakly)
+                r2 = rb.answer(system, forms.sem(q2, scopes.SIG3), weakly)
+                if r1 is not None and r1 != r2:
+                    return [(3, q1), (4, q2)]
+    return [(3, (b, _deep(c))), (4, (b, _deep(N(c))))]
 SINGLES = [(i,) for i in range(4)]
 PAIRS = [p for p in itertools.permutations(range(4), 2)]
 TRIPLES = [(0, 1, 2), (2, 1, 0), (3, 0, 1), (1, 3, 2)]
@@ -184,7 +211,11 @@ class C13(Check):
         kind = task[0]
         conds, cfg, weakly = task[1], task[2], task[3]
         case0 = {"sig": scopes.SIG3, "conds": [forms.ctxt(x) for x in conds], "conds_f": conds, "config": cfg, "weakly": weakly}
+        global QALPHA
+        QALPHA = QALPHA4 + deep_pair(conds, cfg, weakly)
         alone = alone_answers(conds, cfg, weakly)
+        if alone[4] != alone[5] and not any(drive.is_exc(x) for x in alone):
+            res.counters["tasks_with_distinguishing_deep_pair"] += 1
         if any(drive.is_exc(x) for x in alone):
             res.evals += 1
             res.violation(self.id, "alone-exception", dict(case0, scope=kind), "answers", alone)
@@ -354,6 +385,8 @@ class C13(Check):
         cs = rec["case"]
         conds = [opsem.tup(x) for x in cs["conds_f"]]
         cfg, weakly = cs["config"], cs["weakly"]
+        global QALPHA
+        QALPHA = QALPHA4 + deep_pair(conds, cfg, weakly)
         alone = alone_answers(conds, cfg, weakly)
         if rec["kind"] == "schedule":
             mgr = fresh(conds, cfg, weakly)
